@@ -351,6 +351,19 @@ pub fn run(started: Instant) -> i32 {
         rep0.sample(json!({"base": bi, "program": p.short(), "cfg": cfg.json(), "archive_len": a.len(), "chunks": chunk_ranges(a.len(), hl).len(), "mutants": ms.len()}));
         all.extend(ms);
     }
+    // "unaltered archives always open": every length of the inner stream over a whole period of the chunk size
+    // (and of the block size with compression), 3 files, both encrypted layer combinations
+    for sz in 0..=(BLOCK.max(CHUNK) + CHUNK + TAG + 8) {
+        for cfg in [Cfg::new(L4::Encrypt), Cfg::lvl(L4::Both, 5)] {
+            if sz > CHUNK + TAG + 8 && !cfg.layers.compressed() {
+                continue;
+            }
+            let p = Program::new(vec![Op::Add(0, sz), Op::Add(1, 1), Op::Add(2, 0)], Entropy::Noise);
+            let Ok(Ok((a, _))) = guard(|| prog::build(&p, &cfg)) else { continue };
+            origs.push(p.model().files);
+            all.push(Mutant { base: origs.len() - 1, kind: "identity", desc: format!("unaltered ({}, first file of {sz} bytes)", cfg.layers.tag()), bytes: a, all_orders: false, idx: sz });
+        }
+    }
     let origs = &origs;
     let mut rep = infra::par_explore(&all, |m, rep| {
         infra::watch_case(json!({"base": m.base, "mutant": m.desc}));
@@ -395,7 +408,7 @@ pub fn run(started: Instant) -> i32 {
         rep,
         Meta {
             level: "fault_enumeration",
-            rule: "encrypted base archives from the real writer (3 interleaved files, >=5 chunks; encrypt and encrypt+compress); mutants: every single-bit flip of every byte, every byte set to 00/FF, every truncation, all chunk swaps/duplications/deletions/replacements (same archive, sibling archive with another key), header field edits, and the downgrade (encryption bit cleared + unencrypted body substituted; also presented to the mlar binary with a private key, which must refuse it); each opened with the real ArchiveReader and all files read in all 6 orders (chunk edits, identity) or one rotating order, 7-byte or 4096-byte reads, reader configuration alternating between the default and one with the fail-safe-only option failsafe_return_data_even_unauthenticated() set. Oracle: every Ok(n) read equals the original bytes at that position, no foreign name listed, the unaltered archive reads back completely. non-trivial = distinct (mutant, order) other than identity".to_string(),
+            rule: "encrypted base archives from the real writer (3 interleaved files, >=5 chunks; encrypt and encrypt+compress); mutants: every single-bit flip of every byte, every byte set to 00/FF, every truncation, all chunk swaps/duplications/deletions/replacements (same archive, sibling archive with another key), header field edits, and the downgrade (encryption bit cleared + unencrypted body substituted; also presented to the mlar binary with a private key, which must refuse it); each opened with the real ArchiveReader and all files read in all 6 orders (chunk edits, identity) or one rotating order, 7-byte or 4096-byte reads, reader configuration alternating between the default and one with the fail-safe-only option failsafe_return_data_even_unauthenticated() set. Oracle: every Ok(n) read equals the original bytes at that position, no foreign name listed, the unaltered archive reads back completely - also for every first-file length 0..=block+chunk+tag+8 (3 files, encrypt and encrypt+compress), i.e. every alignment of the end of the inner stream. non-trivial = distinct (mutant, order) other than identity".to_string(),
             exhaustive: true,
             bounds: json!({"bases": progs.len(), "mutation_operators": ["bitflip(all bits of all bytes)", "byteset 00/FF", "truncate(all lengths)", "chunk swap/duplicate/delete/replace/sibling/last-to-front", "header zero/increment/low-order point", "downgrade: ENCRYPT bit cleared + unencrypted body (library: known finding; mlar with a key: must refuse, 4 commands x 2 forms)"], "read_orders": "all 6 permutations for chunk edits and identity; rotating single order otherwise"}),
             assumptions: vec!["scaled constants; panics are counted here but judged by C08".to_string(), "forging a tag is assumed infeasible".to_string()],
